@@ -67,8 +67,9 @@ class G:
                 out.append(self.expr())
         return out
 
-    def program(self):
-        return "a = 1\nb = 2\nc = 3\n" + "\n".join(self.stmts(0, self.rng.choice([1, 2, 3, 4]))) + "\n"
+    def program(self, doc=False):
+        # doc: a module docstring (kept as written, first, with no events of its own) and a string statement that is none
+        return ("'d'\n" if doc else "") + "a = 1\nb = 2\nc = 3\n" + ("'s'\n" if doc else "") + "\n".join(self.stmts(0, self.rng.choice([1, 2, 3, 4]))) + "\n"
 
 
 def gen_cases(rng, n):
@@ -85,7 +86,7 @@ def gen_cases(rng, n):
         else:
             d = {"half": 0.5, "sparse": 0.15, "dense": 0.85}[mode]
             ev = [e for e in pool if rng.random() < d] or [rng.choice(pool)]
-        cases.append({"src": g.program(), "events": ev, "guards": rng.random() < 0.5})
+        cases.append({"src": g.program(doc=rng.random() < 0.2), "events": ev, "guards": rng.random() < 0.5})
     return cases
 
 
